@@ -486,22 +486,24 @@ Definition coef2_ok (o : dop S) (v1 v2 : var) : Prop :=
     tadd (ctact S o (Pair v1 v2) x e) (cuact S o (Pair v1 v2) x e).
 
 (* the cross terms (dO/dv1)(d state/dv2) + (dO/dv2)(d state/dv1) are computed by the code when the
-   operator does not depend on v1, v2 at all, or cross derivatives are automatic and the operator
-   takes part in second-order differentiation, or the pair is declared in order2 *)
-Definition cross_ok (o : dop S) (v1 v2 : var) : Prop :=
+   operator does not depend on v1, v2 at all, or cross derivatives are automatic and the second-order
+   bookkeeping is not skipped (the operator declares some order2, or -- flag b -- the incoming state
+   already carries second-order partials), or the pair is declared in order2 *)
+Definition cross_ok (o : dop S) (v1 v2 : var) (b : bool) : Prop :=
   (entries S o v1 = [] /\ entries S o v2 = []) \/
-  (d_order2 S o <> [] /\ d_auto S o = true) \/
+  (d_auto S o = true /\ (d_order2 S o <> [] \/ b = true)) \/
   In (Pair v1 v2) (map fst (d_order2 S o)).
 
-Definition instr_ok2 (v1 v2 : var) (i : dinstr S) : Prop :=
+(* b: the state the instruction is applied to already carries second-order partials *)
+Definition instr_ok2 (v1 v2 : var) (b : bool) (i : dinstr S) : Prop :=
   match i with
   | DOp o => if is_shift S (d_lin S o) then d_order2 S o = []
-             else wf1 S o /\ d2arrs_ok S o /\ coef2_ok o v1 v2 /\ cross_ok o v1 v2
+             else wf1 S o /\ d2arrs_ok S o /\ coef2_ok o v1 v2 /\ cross_ok o v1 v2 b
   | DPlain _ => True
   end.
 
-Definition instr_ok12 (v1 v2 : var) (i : dinstr S) : Prop :=
-  instr_ok S dv1 v1 i /\ instr_ok S dv2 v2 i /\ instr_ok2 v1 v2 i.
+Definition instr_ok12 (v1 v2 : var) (b : bool) (i : dinstr S) : Prop :=
+  instr_ok S dv1 v1 i /\ instr_ok S dv2 v2 i /\ instr_ok2 v1 v2 b i.
 
 Definition inv2 (v1 v2 : var) (n : nat) (ds : dstate S) : Prop :=
   opshaped S n (alookup pair_eqb (Pair v1 v2) (d_p2 ds)) /\
@@ -553,7 +555,7 @@ Qed.
 Lemma step2_nonshift v1 v2 n o ds : (v1 <= v2)%nat ->
   is_shift S (d_lin S o) = false -> darrs_ok S o ->
   coef_ok S dv1 o v1 -> coef_ok S dv2 o v2 ->
-  wf1 S o -> d2arrs_ok S o -> coef2_ok o v1 v2 -> cross_ok o v1 v2 ->
+  wf1 S o -> d2arrs_ok S o -> coef2_ok o v1 v2 -> cross_ok o v1 v2 (nonempty (d_p2 ds)) ->
   inv S dv1 v1 n ds -> inv S dv2 v2 n ds -> inv2 v1 v2 n ds -> inv2 v1 v2 n (dapply o ds).
 Proof.
   intros Hle Hl Hd Hc1 Hc2 Hwf Hd2 Hc12 Hx (Hs & He1 & Hp1 & Hv1) (_ & He2 & Hp2 & Hv2) (Hq & Hw).
@@ -567,7 +569,7 @@ Proof.
     destruct (nonempty (d_p2 ds) || nonempty (d_order2 S o)) eqn:E.
     - rewrite lookup_order2.
       assert (X1 : cross_ok1 S o (Pair v1 v2) v1 /\ cross_ok1 S o (Pair v1 v2) v2).
-      { unfold cross_ok1. destruct Hx as [[E1 E2]|[[_ Ha]|Hin]]; auto. }
+      { unfold cross_ok1. destruct Hx as [[E1 E2]|[[Ha _]|Hin]]; auto. }
       destruct X1 as [X1 X2].
       repeat apply oadd_sem2.
       + (* previous second-order partial through the operator *)
@@ -590,12 +592,12 @@ Proof.
         * intros a b HP. rewrite EP in HP. now apply cmp_le_uniq.
     - (* the operator is skipped by the second-order bookkeeping *)
       apply orb_false_elim in E. destruct E as [E1 E2].
+      unfold cross_ok in Hx. rewrite E1 in Hx.
       specialize (Hw k).
       destruct (d_p2 ds); [|discriminate]. cbn [fst alookup opshaped oget] in *. split; auto.
       rewrite <- Hw. unfold ctact, cuact, sel.
       destruct (d_order2 S o) eqn:Eo2; [|discriminate]. cbn [flat_map map]. rewrite lsum_nil.
-      unfold cross_ok in Hx. rewrite Eo2 in Hx.
-      destruct Hx as [[A1 A2]|[[Hne _]|Hin]]; [|congruence|destruct Hin].
+      destruct Hx as [[A1 A2]|[[_ [Hne|Hb]]|Hin]]; [|congruence|discriminate|destruct Hin].
       unfold act1. rewrite A1, A2, !lsum_nil. cbn [tsum fold_right].
       now rewrite (lact_t0 S L), !(tadd_t0 S L). }
   split; [apply (Main 0)|intros k; apply (Main k)].
@@ -658,7 +660,7 @@ Proof.
 Qed.
 
 Theorem order2_step_le v1 v2 n i ds : (v1 <= v2)%nat ->
-  instr_ok12 v1 v2 i -> inv12 v1 v2 n ds -> inv12 v1 v2 (instr_n S i n) (dstep i ds).
+  instr_ok12 v1 v2 (nonempty (d_p2 ds)) i -> inv12 v1 v2 n ds -> inv12 v1 v2 (instr_n S i n) (dstep i ds).
 Proof.
   intros Hle (Hi1 & Hi2 & Hi12) (I1 & I2 & I12).
   split; [exact (order1_step S L dv1 dv1_add dv1_mul v1 n i ds Hi1 I1)|].
@@ -694,10 +696,10 @@ Lemma coef2_ok_swap o v1 v2 : coef2_ok S da db o v1 v2 -> coef2_ok S db da o v2 
 Proof.
   unfold coef2_ok. intros H x e. rewrite (Pair_comm v2 v1), <- (H x e), !dM_comm. reflexivity.
 Qed.
-Lemma cross_ok_swap o v1 v2 : cross_ok S o v1 v2 -> cross_ok S o v2 v1.
+Lemma cross_ok_swap o v1 v2 b : cross_ok S o v1 v2 b -> cross_ok S o v2 v1 b.
 Proof. unfold cross_ok. rewrite (Pair_comm v2 v1). tauto. Qed.
 
-Lemma instr_ok12_swap v1 v2 i : instr_ok12 S da db v1 v2 i -> instr_ok12 S db da v2 v1 i.
+Lemma instr_ok12_swap v1 v2 b i : instr_ok12 S da db v1 v2 b i -> instr_ok12 S db da v2 v1 b i.
 Proof.
   intros (H1 & H2 & H12). split; [exact H2|split; [exact H1|]].
   destruct i as [o|o]; cbn [instr_ok2] in *; auto.
@@ -727,7 +729,7 @@ Notation instr_ok12 := (instr_ok12 S dv1 dv2).
 Notation inv12 := (inv12 S dv1 dv2).
 
 Theorem order2_step v1 v2 n i ds :
-  instr_ok12 v1 v2 i -> inv12 v1 v2 n ds -> inv12 v1 v2 (instr_n S i n) (dstep i ds).
+  instr_ok12 v1 v2 (nonempty (d_p2 ds)) i -> inv12 v1 v2 n ds -> inv12 v1 v2 (instr_n S i n) (dstep i ds).
 Proof.
   intros Hi Hinv. destruct (le_ge_dec v1 v2) as [Hle|Hge].
   - exact (order2_step_le S L dv1 dv2 dv1_add dv1_mul dv2_add dv2_mul v1 v2 n i ds Hle Hi Hinv).
@@ -737,15 +739,46 @@ Proof.
     + now apply (inv12_swap S dv1 dv2 dv_comm).
 Qed.
 
+(* the hypotheses along a run: each instruction meets the chain-rule conditions, the flag of
+   [cross_ok] being read off the state the instruction is applied to *)
+Fixpoint prog_ok (v1 v2 : var) (prog : list (dinstr S)) (ds : dstate S) : Prop :=
+  match prog with
+  | [] => True
+  | i :: t => instr_ok12 v1 v2 (nonempty (d_p2 ds)) i /\ prog_ok v1 v2 t (dstep i ds)
+  end.
+
 (* every program: the second-order partial carried for (v1,v2) IS dv1 (dv2 (simulated state)),
    together with the two first-order invariants *)
 Theorem order2_run v1 v2 prog n ds :
-  List.Forall (instr_ok12 v1 v2) prog -> inv12 v1 v2 n ds -> inv12 v1 v2 (run_n S prog n) (drun prog ds).
+  prog_ok v1 v2 prog ds -> inv12 v1 v2 n ds -> inv12 v1 v2 (run_n S prog n) (drun prog ds).
 Proof.
   revert n ds. induction prog as [|i prog IH]; intros n ds Hok Hinv; simpl; auto.
-  inversion Hok as [|? ? Hi Hrest]; subst.
+  destruct Hok as [Hi Hrest].
   unfold drun in *. simpl. apply IH; auto. now apply order2_step.
 Qed.
+
+(* purely per-instruction (state-independent) form of the hypotheses *)
+Lemma cross_ok_mono o v1 v2 b : cross_ok S o v1 v2 false -> cross_ok S o v1 v2 b.
+Proof. unfold cross_ok. intros [H|[[Ha [Hn|Hb]]|H]]; auto; discriminate. Qed.
+
+Lemma instr_ok12_mono v1 v2 b i : instr_ok12 v1 v2 false i -> instr_ok12 v1 v2 b i.
+Proof.
+  intros (H1 & H2 & H12). split; [exact H1|split; [exact H2|]].
+  destruct i as [o|o]; cbn [instr_ok2] in *; auto.
+  destruct (is_shift S (d_lin S o)); auto.
+  destruct H12 as (A & B & C & D).
+  split; [exact A|split; [exact B|split; [exact C|now apply cross_ok_mono]]].
+Qed.
+
+Lemma prog_ok_static v1 v2 prog : List.Forall (instr_ok12 v1 v2 false) prog -> forall ds, prog_ok v1 v2 prog ds.
+Proof.
+  induction prog as [|i prog IH]; intros Hok ds; simpl; auto.
+  inversion Hok as [|? ? Hi Hrest]; subst. split; [now apply instr_ok12_mono|now apply IH].
+Qed.
+
+Corollary order2_run_static v1 v2 prog n ds :
+  List.Forall (instr_ok12 v1 v2 false) prog -> inv12 v1 v2 n ds -> inv12 v1 v2 (run_n S prog n) (drun prog ds).
+Proof. intros Hok. apply order2_run. now apply prog_ok_static. Qed.
 
 Lemma inv12_init v1 v2 pd : dv1 pd = k0 -> dv2 pd = k0 -> inv12 v1 v2 0 (dinit (init pd)).
 Proof.
@@ -759,7 +792,7 @@ Qed.
 
 (* what the Hessian probe reads under the sorted pair *)
 Theorem hessian_entry_exact v1 v2 prog pd :
-  dv1 pd = k0 -> dv2 pd = k0 -> List.Forall (instr_ok12 v1 v2) prog ->
+  dv1 pd = k0 -> dv2 pd = k0 -> prog_ok v1 v2 prog (dinit (init pd)) ->
   match alookup pair_eqb (Pair v1 v2) (d_p2 (drun prog (dinit (init pd)))) with
   | Some s => f0 S s | None => k0 end
   = dv1 (dv2 (f0 S (d_main (drun prog (dinit (init pd)))))).
@@ -779,7 +812,7 @@ Qed.
 
 (* Hessian probe for the variable list [v1; v2]: both mixed entries are dv1 (dv2 signal) *)
 Theorem hessian_exact v1 v2 prog pd :
-  dv1 pd = k0 -> dv2 pd = k0 -> List.Forall (instr_ok12 v1 v2) prog ->
+  dv1 pd = k0 -> dv2 pd = k0 -> prog_ok v1 v2 prog (dinit (init pd)) ->
   nth 1 (nth 0 (hessian (drun prog (dinit (init pd))) [v1; v2]) []) k0
     = dv1 (dv2 (f0 S (d_main (drun prog (dinit (init pd)))))) /\
   nth 0 (nth 1 (hessian (drun prog (dinit (init pd))) [v1; v2]) []) k0
@@ -791,7 +824,7 @@ Qed.
 
 (* a single variable differentiated twice, in the style of jacobian_exact *)
 Theorem hessian_exact_diag v prog pd :
-  dv1 pd = k0 -> dv2 pd = k0 -> List.Forall (instr_ok12 v v) prog ->
+  dv1 pd = k0 -> dv2 pd = k0 -> prog_ok v v prog (dinit (init pd)) ->
   hessian (drun prog (dinit (init pd))) [v] = [[dv1 (dv2 (f0 S (d_main (drun prog (dinit (init pd))))))]].
 Proof.
   intros H1 H2 Hok. pose proof (hessian_entry_exact v v prog pd H1 H2 Hok) as E.
